@@ -50,6 +50,10 @@ def gen(tier, seed):
               "    return eq_lattice(ia, ib, k)", ""]
     conds.append({"fn": "h_eq_lattice", "what": "== and != agree with the comparison of SI values on a 16-point magnitude lattice from 1e-30 to 1e30 incl. close pairs (no absolute tolerance), 6 storage-system pairs, both operand orders",
                   "sig": "c05-eq-lattice", "structure": "lattice", "enumerate": True, "viol": "== / != between quantities disagrees with the comparison of their SI values"})
+    lines += ["def h_order_lattice(ia: int, ib: int, k: int) -> bool:", '    """', "    pre: 0 <= ia <= 15 and 0 <= ib <= 15 and 0 <= k <= 23", "    post: _", '    """',
+              "    return order_lattice(ia, ib, k)", ""]
+    conds.append({"fn": "h_order_lattice", "what": "< <= > >= between quantities of the same units, and between a quantity and a plain number in either operand order, are exactly the comparisons of the magnitudes on the 16-point lattice - INCLUDING equal operands (the symbolic comparison legs do not judge ties)",
+                  "sig": "c05-order-lattice", "structure": "lattice", "enumerate": True, "viol": "an ordering comparison involving a quantity disagrees with the comparison of the magnitudes (e.g. at equality)"})
     # error clauses: symbolic dimension vectors
     for op in ("add", "sub", "mod", "lt", "le", "gt", "ge"):
         fn = "h_mismatch_%s" % op
